@@ -84,8 +84,10 @@ def run_property(pid: str, tier: str, root: str | None = None, write: bool = Tru
         )
     for o, kf in matched:
         print(f"KNOWN-FINDING: property={pid} {o.key} {kf.get('what', o.msg)}")
+    vpath = os.path.join(VERIF, "evidence", f"{pid}.violations.json")
+    if not violations and write and os.path.exists(vpath):
+        os.remove(vpath)  # a stale report of an earlier run must not outlive a clean run
     if violations:
-        vpath = os.path.join(VERIF, "evidence", f"{pid}.violations.json")
         if write:
             with open(vpath, "w", encoding="utf-8") as f:
                 json.dump([o.sample() for o in violations], f, indent=1)
@@ -114,9 +116,17 @@ def main(argv: list[str] | None = None) -> int:
     rc = run_property(args.pid, args.tier, args.root)
     if rc == 0 and args.tier == "thorough":
         try:
+            from . import selftest
             from .selftest import run_selftest
 
             rc2 = run_selftest(args.pid)
+            evp = os.path.join(VERIF, "evidence", f"{args.pid}.json")
+            with open(evp, encoding="utf-8") as f:
+                ev = json.load(f)
+            ev["coverage"]["checker_selftest"] = dict(selftest.LAST)
+            with open(evp + ".tmp", "w", encoding="utf-8") as f:
+                json.dump(ev, f, indent=1)
+            os.replace(evp + ".tmp", evp)
             if rc2 != 0:
                 print(f"ANALYSIS-ERROR property={args.pid} checker self-test failed")
                 return 2
